@@ -8,6 +8,7 @@ import (
 	"encoding/json"
 	"fmt"
 	"os"
+	"strings"
 
 	lua "github.com/yuin/gopher-lua"
 	"verifh/cmd/c09/tv"
@@ -26,13 +27,15 @@ type Cmp struct {
 }
 
 type Step struct {
-	Op  string `json:"op"` // ins2 ins3 insbad rem1 rem2 assign assignk concat unpack getn maxn len read sort
-	V   *tv.V  `json:"v,omitempty"`
-	K   *tv.V  `json:"k,omitempty"`
-	I   *int64 `json:"i,omitempty"`
-	J   *int64 `json:"j,omitempty"`
-	Sep string `json:"sep,omitempty"` // hex
-	Cmp *Cmp   `json:"cmp,omitempty"`
+	Op     string `json:"op"` // ins2 ins3 insbad rem1 rem2 assign assignk concat unpack getn maxn len read sort
+	V      *tv.V  `json:"v,omitempty"`
+	K      *tv.V  `json:"k,omitempty"`
+	I      *int64 `json:"i,omitempty"`
+	J      *int64 `json:"j,omitempty"`
+	Sep    string `json:"sep,omitempty"`    // hex
+	SepNum *int64 `json:"sepnum,omitempty"` // concat: the separator is this number
+	N      int64  `json:"n,omitempty"`      // fill: how many
+	Cmp    *Cmp   `json:"cmp,omitempty"`
 }
 
 type Input struct {
@@ -58,6 +61,7 @@ type runner struct {
 	obs    []any
 	fail   string
 	offdom bool
+	stop   bool
 	nsort  int
 	nmut   int
 }
@@ -207,11 +211,65 @@ func (r *runner) exec(s *Step) {
 		}
 		coq = fmt.Sprintf("LIns3 %s %s", lib.CoqZ(*s.I), s.V.CoqVal())
 		r.nmut++
-	case "rem1", "rem2":
+	case "fill":
+		for i := int64(0); i < s.N; i++ {
+			if _, err := r.callT("insert", t, r.pool.L(*s.V)); err != nil {
+				r.failf("table.insert raised: %v", err)
+				break
+			}
+		}
+		coq = fmt.Sprintf("LFill %s %s", lib.CoqZ(s.N), s.V.CoqVal())
+		r.nmut++
+	case "sortmut":
+		// a comparator with a side effect on the table being sorted (table.remove(t,1) at its I-th
+		// call): anything may come out, but only Lua values and at most a Lua error. Go side only.
+		ncall := int64(0)
+		bad := ""
+		rec := r.L.NewFunction(func(L *lua.LState) int {
+			a, b := L.Get(1), L.Get(2)
+			if a == nil || b == nil {
+				bad = "comparator received a Go nil"
+			}
+			ncall++
+			if ncall == *s.I {
+				L.Push(L.GetField(L.GetGlobal("table"), "remove"))
+				L.Push(t)
+				L.Push(lua.LNumber(1))
+				L.Call(2, 0)
+			}
+			if s.Cmp != nil && s.Cmp.Kind == "const" {
+				L.Push(lua.LTrue)
+				return 1
+			}
+			L.Push(lua.LBool(lessOrRaise(L, a, b)))
+			return 1
+		})
+		_, err := r.callT("sort", t, rec)
+		if err != nil && strings.Contains(err.Error(), "runtime error") {
+			bad = "sort raised a Go runtime error: " + err.Error()
+		}
+		for i := 1; i <= t.Len()+2; i++ {
+			if t.RawGetInt(i) == nil {
+				bad = fmt.Sprintf("t[%d] is a Go nil after the sort", i)
+			}
+		}
+		t.ForEach(func(k, v lua.LValue) {
+			if k == nil || v == nil {
+				bad = "ForEach delivers a Go nil after the sort"
+			}
+		})
+		if bad != "" {
+			r.failf("%s", bad)
+		}
+		r.stop = true
+		coq = "LStop"
+	case "rem1", "rem2", "remnil":
 		var res []lua.LValue
 		var err error
 		if s.Op == "rem1" {
 			res, err = r.callT("remove", t)
+		} else if s.Op == "remnil" {
+			res, err = r.callT("remove", t, lua.LNil)
 		} else {
 			res, err = r.callT("remove", t, lua.LNumber(*s.I))
 		}
@@ -225,7 +283,7 @@ func (r *runner) exec(s *Step) {
 		} else {
 			obs = "no value"
 		}
-		if s.Op == "rem1" {
+		if s.Op == "rem1" || s.Op == "remnil" {
 			coq = "LRem1 " + o
 		} else {
 			coq = fmt.Sprintf("LRem2 %s %s", lib.CoqZ(*s.I), o)
@@ -250,6 +308,10 @@ func (r *runner) exec(s *Step) {
 	case "concat":
 		sep, _ := hex.DecodeString(s.Sep)
 		args := []lua.LValue{t, lua.LString(string(sep))}
+		if s.SepNum != nil {
+			sep = []byte(fmt.Sprint(*s.SepNum))
+			args = []lua.LValue{t, lua.LNumber(*s.SepNum)}
+		}
 		if s.I != nil {
 			args = append(args, lua.LNumber(*s.I))
 			if s.J != nil {
@@ -412,7 +474,7 @@ func runCase(w *lib.Writer, in *Input, class string, plan func(r *runner) *Step)
 	if plan != nil {
 		for {
 			s := plan(r)
-			if s == nil || r.fail != "" {
+			if s == nil || r.fail != "" || r.stop {
 				break
 			}
 			r.exec(s)
@@ -421,7 +483,7 @@ func runCase(w *lib.Writer, in *Input, class string, plan func(r *runner) *Step)
 	} else {
 		for i := range in.Steps {
 			r.exec(&in.Steps[i])
-			if r.fail != "" {
+			if r.fail != "" || r.stop {
 				break
 			}
 		}
